@@ -32,3 +32,21 @@ impl Bytes for Page {
         })
     }
 }
+
+/// Decodes a page-index entry into (start, bytes on disk, value count, stored uncompressed).
+#[cfg(feature = "verif")]
+pub fn verif_page_from_bytes(bytes: &[u8]) -> Result<(u64, u32, u32, bool)> {
+    let p = Page::from_bytes(bytes)?;
+    Ok((p.start, p.bytes, p.values_count(), p.is_raw()))
+}
+
+/// Encodes a page-index entry.
+#[cfg(feature = "verif")]
+pub fn verif_page_to_bytes(start: u64, bytes: u32, values: u32, raw: bool) -> [u8; 16] {
+    let p = if raw {
+        Page::raw(start, bytes, values)
+    } else {
+        Page::compressed(start, bytes, values)
+    };
+    p.to_bytes()
+}
